@@ -549,7 +549,7 @@ def u_aromatization(I):
 
 
 def u_aromatization_two(I):
-    return _aromatization(I, [[6, 6], [5, 6], [6, 5]][I.ctx.choose([True, True, True], 'ring sizes')])
+    return _aromatization(I, [[6, 6], [5, 6], [6, 5], [7, 6], [6, 8]][I.ctx.choose([True] * 5, 'ring sizes')])
 
 
 UNITS = [
